@@ -258,3 +258,96 @@ Example entity_followup_hyps :
   merge_with_path x_ents (JObj [(name_result, JArr [JObj [(x_ks, JStr x_2)]])]) [name_entities; x_ks] (Some [1%nat])
   = Ok (JObj [(name_entities, JArr [JObj [(x_tn, JStr x_Product)]; JObj [(x_tn, JStr x_Storage); (x_ks, JStr x_2)]])]).
 Proof. vm_compute. reflexivity. Qed.
+
+(* ------------------------------------------------------------------ list wrappers: the builder's answer is the
+   projection of the service's data (S3), at every nesting depth *)
+Fixpoint nest_plist (n : nat) (t : ptype) : ptype :=
+  match n with O => t | S n' => PList (nest_plist n' t) end.
+
+(* the item loop of [proj_chk] at a list level *)
+Fixpoint proj_items (em : enum_map) (t : ptype) (i : nat) (vs : list pfld) (js : list json) : option pfail :=
+  match vs, js with
+  | [], [] => None
+  | x :: vr, y :: jr =>
+    match under (SIdx i) (proj_chk em t x y) with
+    | Some f => Some f
+    | None => proj_items em t (S i) vr jr
+    end
+  | _, _ => Some ([], why_length)
+  end.
+
+Lemma proj_list_msgs : forall em t items w inner js,
+  field_by_num 1 w = Some (FMsg inner) ->
+  field_by_num 1 inner = Some (FListM items) ->
+  proj_chk em (PList t) (FMsg w) (JArr js) = proj_items em t O (map FMsg items) js.
+Proof.
+  intros em t items w inner js H1 H2. cbn [proj_chk]. unfold list_view. rewrite H1, H2.
+  generalize O. generalize (map FMsg items). clear.
+  intros vs. revert js. induction vs as [|x vr IH]; intros js i; destruct js as [|y jr]; cbn [proj_items]; auto.
+  destruct (under (SIdx i) (proj_chk em t x y)); auto.
+Qed.
+
+Lemma proj_items_map : forall em t (f : pmsg -> res json) items vs,
+  map_res f items = Ok vs ->
+  (forall m j, In m items -> f m = Ok j -> proj_chk em t (FMsg m) j = None) ->
+  forall i, proj_items em t i (map FMsg items) vs = None.
+Proof.
+  intros em t f items. induction items as [|m r IH]; intros vs E H i.
+  - cbn in E. inversion E. reflexivity.
+  - cbn [map_res] in E. destruct (f m) as [y|e] eqn:Ey; cbn [bind] in E; [|discriminate].
+    destruct (map_res f r) as [ys|e] eqn:Er; cbn [bind] in E; [|discriminate].
+    inversion E; subst vs. cbn [map proj_items].
+    rewrite (H m y (or_introl eq_refl) Ey). cbn [under].
+    apply IH; auto. intros m' j' I. apply H. right. auto.
+Qed.
+
+Lemma traverse_projection : forall em sub t levels,
+  (forall m j, sub m = Ok j -> proj_chk em t (FMsg m) j = None) ->
+  forall k level data v,
+    traverse em sub true levels k level data = Ok v ->
+    proj_chk em (nest_plist (S k) t) (FMsg data) v = None.
+Proof.
+  intros em sub t levels Hsub. induction k as [|k IH]; intros level data v E.
+  - cbn [traverse] in E. cbn [nest_plist].
+    destruct (field_by_num 1 data) as [f|] eqn:F1; [|discriminate].
+    destruct f as [s| |w|l|l]; try discriminate.
+    + destruct (nth_error levels level) as [[|]|]; try discriminate. inversion E; subst v.
+      cbn [proj_chk]. unfold list_view. rewrite F1. reflexivity.
+    + destruct (field_by_num 1 w) as [g|] eqn:F2; [|discriminate].
+      destruct g as [s| |w'|l|items]; try discriminate.
+      * destruct l; [|discriminate]. inversion E; subst v.
+        cbn [proj_chk]. unfold list_view. rewrite F1, F2. reflexivity.
+      * destruct (map_res sub items) as [vs|e] eqn:M; cbn [bind] in E; [|discriminate].
+        inversion E; subst v.
+        rewrite (proj_list_msgs em t items data w vs F1 F2).
+        eapply proj_items_map; eauto.
+  - cbn [traverse] in E. change (nest_plist (S (S k)) t) with (PList (nest_plist (S k) t)).
+    destruct (field_by_num 1 data) as [f|] eqn:F1; [|discriminate].
+    destruct f as [s| |w|l|l]; try discriminate.
+    + destruct (nth_error levels level) as [[|]|]; try discriminate. inversion E; subst v.
+      cbn [proj_chk]. unfold list_view. rewrite F1. reflexivity.
+    + destruct (field_by_num 1 w) as [g|] eqn:F2; [|discriminate].
+      destruct g as [s| |w'|l|items]; try discriminate.
+      * destruct l; [|discriminate]. inversion E; subst v.
+        cbn [proj_chk]. unfold list_view. rewrite F1, F2. reflexivity.
+      * destruct (map_res (traverse em sub true levels k (S level)) items) as [vs|e] eqn:M; cbn [bind] in E; [|discriminate].
+        inversion E; subst v.
+        rewrite (proj_list_msgs em (nest_plist (S k) t) items data w vs F1 F2).
+        eapply proj_items_map; eauto.
+Qed.
+
+(* [[T]] with the data of seeded regression C20-m1: items [[a]; null] -- the null inner list must be null *)
+Definition y_list : bytes := [108;105;115;116].
+Definition y_items : bytes := [105;116;101;109;115].
+Definition y_wrap (tn : bytes) (items : pfld) : pmsg :=
+  PMsg tn [] [PFE y_list 1 (FMsg (PMsg y_list [] [PFE y_items 1 items]))].
+Definition y_data : pmsg :=
+  y_wrap x_author (FListM [y_wrap x_prefs (FListM [PMsg x_kind [] []]); PMsg x_prefs [] [PFE y_list 1 FAbsent]]).
+
+Example traverse_projection_hyps :
+  traverse [] (fun _ => Ok (JObj [])) true [true; true] 1 0 y_data = Ok (JArr [JArr [JObj []]; JNull]) /\
+  proj_chk [] (nest_plist 2 (PObj [])) (FMsg y_data) (JArr [JArr [JObj []]; JNull]) = None /\
+  (* the answer of the seeded regression ([] for the null inner list) is rejected, with the position *)
+  proj_chk [] (nest_plist 2 (PObj [])) (FMsg y_data) (JArr [JArr [JObj []]; JArr []])
+  = Some ([SIdx 1], why_absent_not_null).
+Proof. repeat split; vm_compute; reflexivity. Qed.
